@@ -435,9 +435,25 @@ def _is_ok_agg(rv):
     return rv.get("r") == "agg" and rv.get("adt", "").endswith("result::Result") and rv.get("variant") == "Ok"
 
 
+# keys of workspace functions every normal return of which is an Err (`fn fail(..) -> Result<_, E> { ..; Err(e) }`): filled by
+# facts.Program after loading; `return fail(..)` is then an error exit of the caller, like `?`
+ALWAYS_ERR = set()
+
+
+def always_err(fn):
+    """Every definition of fn's return place is an Err aggregate (and there is at least one)."""
+    ds = defs(fn).of(0)
+    if not ds or not fn.locals[0].startswith("core::result::Result<"):
+        return False
+    for _pt, kind, payload in ds:
+        if kind != "assign" or not _is_err_agg(payload["rv"]):
+            return False
+    return True
+
+
 def error_points(fn):
     """Points that put an error into the return place: `?` residuals, `_0 = Err(..)`,
-    `_0 = Some(Err(..))`."""
+    `_0 = Some(Err(..))`, `_0 = f(..)` for a workspace function f that only ever returns Err."""
     pts = []
     d = defs(fn)
     for b in fn.blocks:
@@ -447,6 +463,8 @@ def error_points(fn):
             if ck.endswith("FromResidual>::from_residual") or ck.endswith("::from_residual"):
                 if t["dest"]["l"] == 0:
                     pts.append(term_pt(fn, b.idx))
+            elif t["dest"]["l"] == 0 and not t["dest"]["p"] and (t.get("callee") in ALWAYS_ERR or strip_generics(t.get("callee") or "") in ALWAYS_ERR):
+                pts.append(term_pt(fn, b.idx))
         for i, st in enumerate(b.st):
             if st["s"] != "=" or st["lhs"]["l"] != 0 or st["lhs"]["p"]:
                 continue
